@@ -68,8 +68,8 @@ pub fn profile(name: &str) -> Profile {
         "c01" => Profile { name: "c01", retained: true, ..base },
         "c03" => Profile { name: "c03", adversarial: true, stale_events: true, shared: true, persistent: true, takeover: true, wills: true, retained: true, v5: true, steps: (20, 200), ..base },
         "c06" => Profile { name: "c06", v5: true, ..base },
-        "c08" => Profile { name: "c08", persistent: true, takeover: true, retained: true, clients: (2, 4), ..base },
-        "c09" => Profile { name: "c09", clients: (2, 3), retained: true, ..base },
+        "c08" => Profile { name: "c08", persistent: true, takeover: true, retained: true, shared: true, clients: (2, 4), ..base },
+        "c09" => Profile { name: "c09", clients: (2, 3), retained: true, shared: true, ..base },
         "c14" => Profile { name: "c14", adversarial: true, persistent: true, late_signals: true, clients: (3, 5), ..base },
         "c15" => Profile { name: "c15", retained: true, shared: true, wills: true, clients: (2, 4), big_bursts: false, ..base },
         "c16" => Profile { name: "c16", wills: true, retained: true, clients: (2, 4), big_bursts: false, ..base },
@@ -639,7 +639,7 @@ impl<'a> Gen<'a> {
                 let pk = self.pkid(i);
                 // (C17: the window is filled through a shared subscription, whose member then
                 // holds the turn with no free slot)
-                let wf: &[u8] = if self.p.shared { b"$share/g/w/#" } else { b"w/#" };
+                let wf: &[u8] = if self.p.shared && self.rng.chance(1, 2) { b"$share/g/w/#" } else { b"w/#" };
                 self.push(i, format!("sub {pk} - 1 {} 1", hex(wf)));
                 self.signal(i);
                 // some retained messages on other topics, then the backlog
